@@ -48,7 +48,7 @@ func VerifP_C03_Determinism_Name(i int) string { return verifSeedList()[i].name 
 func VerifP_C03_Determinism(i int) {
 	s := verifSeedList()[i]
 	f := verifParseHCL(s.src, vf)
-	pc := &PathContext{Schema: verifSchemas(s.schema), Files: map[string]*hcl.File{vf: f}, Functions: verifFunctions(), ReferenceTargets: verifTargets()}
+	pc := &PathContext{Schema: verifSchemas(s.schema), Files: map[string]*hcl.File{vf: f}, Functions: verifFunctions(), ReferenceTargets: verifTargets(), Validators: verifValidators()}
 	dd := NewDecoder(&verifPathReader{paths: map[string]*PathContext{"dir": pc}})
 	dd.SetContext(NewDecoderContext())
 	d, _ := dd.Path(lang.Path{Path: "dir"})
